@@ -119,7 +119,7 @@ struct mcs_node { sc_b* parentpointer; sc_b* childpointers[2]; bool havechild[4]
 struct mcs_node ME; unsigned NN, g_tid;
 static inline struct mcs_node* mcs_at(unsigned i) { __CPROVER_assert(i < NN, "nodes.at(): index in range"); __CPROVER_assert(i == g_tid, "own node only"); return &ME; }
 """
-MCS_REINIT_RULES = [rx(r'nodes\.resize\(P\)', 'mcs_resize(P)', 1, 1), rx(r'treenode& n\s*=\s*nodes\.at\(i\)\.get\(\);', 'struct mcs_node* n = mcs_at(i);', 1, 1),
+MCS_REINIT_RULES = [rx(r'nodes\.size\(\)', 'NN', 0), rx(r'nodes\.resize\(P\)', 'mcs_resize(P)', 1, 1), rx(r'treenode& n\s*=\s*nodes\.at\(i\)\.get\(\);', 'struct mcs_node* n = mcs_at(i);', 1, 1),
                     rx(r'nodes\.at\((.*?)\)\.get\(\)\.', r'mcs_at(\1)->', 3, 3), rx(r'n\.parentsense = false;', 'n->parentsense.v = false;', 1, 1),
                     rx(r'n\.childnotready\[j\] = n\.havechild\[j\]', 'n->childnotready[j].v = n->havechild[j]', 1, 1), rx(r'(?<![\w.>])n\.', 'n->', 4)]
 def mcs_node_facts(s):
@@ -222,7 +222,7 @@ static inline void ld_resize(unsigned n) { __CPROVER_assert(n <= GV_MAXT, "confi
 #define DIS_PARTNER(ld, r) (ld)->myflags[r].partner
 """
 DIS_MACROS = [dict(src=DIS, anchor=r'#define FAST_LOG2\(x\).*?\n\n', lower=[])]
-DIS_REINIT_RULES = [rx(r'nodes\.resize\(P\)', 'ld_resize(P)', 1, 1), rx(r'LocalData& lhs = nodes\.at\(i\)\.get\(\);', 'struct LocalData* lhs = ld_at(i);', 1, 1),
+DIS_REINIT_RULES = [rx(r'nodes\.size\(\)', 'NN', 0), rx(r'nodes\.resize\(P\)', 'ld_resize(P)', 1, 1), rx(r'LocalData& lhs = nodes\.at\(i\)\.get\(\);', 'struct LocalData* lhs = ld_at(i);', 1, 1),
                     rx(r'LocalData& rhs\s*=\s*nodes\.at\((.+?)\)\.get\(\);', r'struct LocalData* rhs = ld_at(\1);', 1, 1),
                     rx(r'sizeof\(lhs\.myflags\) / sizeof\(\*lhs\.myflags\)', '(sizeof(lhs->myflags) / sizeof(*lhs->myflags))', 1, 1),
                     rx(r'lhs\.myflags\[j\]\.flag\[0\] = lhs\.myflags\[j\]\.flag\[1\] = 0;', '{ lhs->myflags[j].flag[0].v = 0; lhs->myflags[j].flag[1].v = 0; }', 1, 1),
